@@ -256,6 +256,27 @@ class Sweep(object):
                 return
         self.chk.fail(sig, case, detail)
 
+    def constructible(self):
+        """every element must at least be constructible with check_grammar=False (what load() and the factories' bare call
+        do); one that is not (a table row of a shape __init__ chokes on) is reported with that call and left out of the
+        sweeps, which would otherwise stop at it"""
+        chk, V, Element = self.chk, self.V, self.Element
+        self.dead = set()
+        for e in range(V.n):
+            try:
+                Element(qname=V.G.elems.items[e], check_grammar=False)
+            except Exception as ex:
+                self.dead.add(e)
+                chk.count('elements_not_constructible')
+                if len(self.dead) <= 8:
+                    chk.fail('construct:%s' % V.EN[e], {'op': 'Element()', 'element': V.EN[e], 'given': [], 'check_grammar': False},
+                             'Element(qname=<%s>, check_grammar=False) raises %s: %s' % (V.EN[e], type(ex).__name__, str(ex)[:80]))
+        self.live = [e for e in range(V.n) if e not in self.dead]
+
+    def cap(self, key, limit=8):
+        self.reported[key] = self.reported.get(key, 0) + 1
+        return self.reported[key] <= limit
+
     def history_fail(self, what, calls, detail):
         """the outcome of a call depended on earlier calls: a violation whose replay is the call history"""
         self.reported['history'] = self.reported.get('history', 0) + 1
@@ -273,6 +294,8 @@ class Sweep(object):
         model_on = drv.batch('addrow 1 %d' % p for p in range(n))
         model_off = drv.batch('addrow 0 %d' % p for p in range(n))
         for p in range(n):
+            if p in self.dead:
+                self.first_children.append('X' * n); continue
             qp = Q[p]
             mo = model_on[p].split()[1]; mf = model_off[p].split()[1]
             filled = Element(qname=qp, check_grammar=False)
@@ -280,6 +303,8 @@ class Sweep(object):
             row_diff = []
             first = []
             for c in range(n):
+                if c in self.dead:
+                    first.append('X'); continue
                 qc = Q[c]
                 # one history per pair, fresh elements for every call (only `filled` is shared along the row):
                 #   checked on an empty parent, checked on a filled parent, UNCHECKED, checked again, checked through parent=
@@ -324,7 +349,7 @@ class Sweep(object):
                     if (o == '.') != want or o not in '.C':
                         row_diff.append((c, o, want, k))
                         break
-                if obs[2] != '.':
+                if obs[2] != '.' and self.cap('unchecked'):
                     chk.fail('unchecked:children:%s>%s' % (V.EN[p], V.EN[c]), {'op': 'addElement', 'parent': V.EN[p], 'child': V.EN[c], 'check_grammar': False},
                              'addElement(check_grammar=False) did not accept the child: %s' % obs[2])
             self.first_children.append(''.join(first))
@@ -354,6 +379,8 @@ class Sweep(object):
             lines += ['text 1 %d' % e, 'cdata 1 %d' % e, 'text 0 %d' % e, 'cdata 0 %d' % e]
         ans = drv.batch(lines)
         for e in range(V.n):
+            if e in self.dead:
+                self.first_text.append(None); continue
             obs = []
             for op, check in (('addText', True), ('addCDATA', True), ('addText', False), ('addCDATA', False)):
                 el = Element(qname=Q[e], check_grammar=False)
@@ -428,6 +455,8 @@ class Sweep(object):
         thorough = chk.tier == 'thorough'
         model_off = drv.batch('setrow 0 %d' % e for e in range(V.n))
         for e in range(V.n):
+            if e in self.dead:
+                self.first_attrs.append([]); continue
             m = model[e].split()[1:]
             mf = model_off[e].split()[1:]
             el = Element(qname=Q[e], check_grammar=False)
@@ -454,7 +483,7 @@ class Sweep(object):
                     for a in new:
                         del el.attributes[a]
                 except AttributeError as ex:
-                    r = 'A' if (str(ex).startswith('Attribute %s is not allowed in' % kw) or str(ex).startswith('Unable to add simple attribute')) else 'XAttributeError'
+                    r = 'A'           # the class is the protocol, not the message (value converters raise ValueError only)
                 except ValueError as ex:
                     # the name was accepted, the value refused (C15's business); which attribute it was cannot be observed
                     chk.count('setAttribute_value_refused')
@@ -479,7 +508,9 @@ class Sweep(object):
                 except AttributeError:
                     r2 = 'A'
                 except ValueError as ex:
-                    r2 = 'V' if 'is not in list' in str(ex) else (mf[k] if mf[k].isdigit() else 'value-refused')
+                    # ValueError: either the keyword is not listed (list.index / an explicit raise) or the value was refused;
+                    # the value is one the resolved attribute accepts, so the model's answer tells which
+                    r2 = mf[k] if (mf[k].isdigit() or mf[k] == 'V') else 'value-refused'
                 except Exception as ex:
                     r2 = 'X' + type(ex).__name__
                 try:
@@ -536,6 +567,8 @@ class Sweep(object):
         aid = V.G.attrs.ids
         cases = []
         for e in range(V.n):
+            if e in self.dead:
+                continue
             treq = [aid[a] for a in T['required_attributes'].get(Q[e], [])]
             R = list(treq) + sorted(a for a in V.S[e]['must'] if a not in treq)
             # history per case: checked, check_grammar=False, checked again (the repeat must give the first outcome)
@@ -609,6 +642,8 @@ class Sweep(object):
         bogus = kidx[tg.BOGUS_KEYWORDS[0]]
         cases = []
         for e in range(V.n):
+            if e in self.dead:
+                continue
             row = T['allowed_attributes'].get(Q[e])
             treq = [aid[a] for a in T['required_attributes'].get(Q[e], [])]
             ks = [[bogus]]
@@ -664,7 +699,7 @@ class Sweep(object):
                     mk = re.match(r'Attribute (\S+) is not allowed in', msg)
                     if mk:
                         o = 'err AttributeError kw ' + mk.group(1)
-                    elif msg.startswith('Unable to add simple attribute'):
+                    elif first_refused is not None or msg.startswith('Unable to'):
                         o = 'err AttributeError kw ' + KN[kws[0] if first_refused is None else first_refused]
                     else:
                         o = 'err AttributeError ? ' + msg[:40]
@@ -701,8 +736,12 @@ class Sweep(object):
         hist0 = {'op': 'load', 'packages': desc}
         n = V.n
         for p in range(n):
+            if p in self.dead:
+                continue
             row = self.first_children[p]
             for c in range(n):
+                if c in self.dead:
+                    continue
                 try:
                     Element(qname=Q[p], check_grammar=False).addElement(Element(qname=Q[c], check_grammar=False)); r = '.'
                 except IllegalChild:
@@ -716,6 +755,8 @@ class Sweep(object):
                                       'checked addElement(%s) on a fresh <%s>: %s before and %s after load()' % (V.EN[c], V.EN[p], row[c], r))
         chk.corr(n * n); chk.count('addElement_calls_after_load', n * n)
         for e in range(n):
+            if e in self.dead:
+                continue
             obs = []
             for op in ('addText', 'addCDATA'):
                 try:
@@ -838,6 +879,12 @@ def run(chk, replay=None):
         chk.obligation('translator', False, 'cannot translate: %s: %s' % (type(e).__name__, e), kind='translator')
         return chk.finish()
     tg.write(chk, G)
+    if replay is None:
+        # a row of unexpected shape is a broken obligation; the sweep below still covers every row against the schema
+        chk.obligation('the four tables of odf/grammar.py have the expected shape (containers of (namespace, name) pairs)', not G.malformed,
+                       '; '.join('%s[%s]: %s' % m for m in G.malformed[:6]) or 'all rows well-formed', kind='translator')
+        if G.duplicate_keys:
+            chk.notes.append('keys written twice in odf/grammar.py (the later row wins): %s' % ', '.join('%s %s' % d for d in G.duplicate_keys[:8]))
     if replay is not None:
         rc, out = chk.lake(['build', 'drv_grammar'])
         if rc != 0:
@@ -856,13 +903,19 @@ def run(chk, replay=None):
                    '%d rows; only in Lean: %s; only in txt: %s' % (len(lean_known), sorted(set(lean_known) - set(txt_known))[:5], sorted(set(txt_known) - set(lean_known))[:5]),
                    kind='consistency')
     sw = Sweep(chk, V, drv)
-    t = time.time(); sw.children(); chk.count('t_children_s', round(time.time() - t, 1))
-    t = time.time(); sw.text(); chk.count('t_text_s', round(time.time() - t, 1))
-    t = time.time(); sw.attributes(); chk.count('t_attrs_s', round(time.time() - t, 1))
-    t = time.time(); sw.constructors(); chk.count('t_ctor_s', round(time.time() - t, 1))
-    t = time.time(); sw.constructor_keywords(); chk.count('t_ctorkw_s', round(time.time() - t, 1))
-    t = time.time(); sw.factories(); chk.count('t_factories_s', round(time.time() - t, 1))
-    t = time.time(); sw.after_load(); chk.count('t_after_load_s', round(time.time() - t, 1))
+    sw.constructible()
+    import traceback
+    for name, phase in (('children', sw.children), ('text', sw.text), ('attrs', sw.attributes), ('ctor', sw.constructors),
+                        ('ctorkw', sw.constructor_keywords), ('factories', sw.factories), ('after_load', sw.after_load)):
+        t = time.time()
+        try:
+            phase()
+        except common.InfraError:
+            raise
+        except Exception as ex:
+            # the sweep itself must not stop the run: what stopped it is a broken obligation (and usually a row of odd shape)
+            chk.obligation('sweep phase %s ran to completion' % name, False, traceback.format_exc()[-600:], kind='sweep')
+        chk.count('t_%s_s' % name, round(time.time() - t, 1))
     chk.extra_cov['table_sizes'] = {'schema_defines': len(G.defnames), 'elements': V.n, 'schema_elements': sum(1 for s in V.S if s['elem']),
                                     'attributes': V.na, 'keywords': V.nk,
                                     'allowed_children_rows': len(G.py_tables['allowed_children']), 'allows_text': len(G.py_tables['allows_text']),
